@@ -1,0 +1,36 @@
+//go:build verif
+
+package shard
+
+import (
+	"github.com/semafind/semadb/diskstore"
+)
+
+// Hooks used by the verification harness in /verif (build tag verif only).
+
+// VerifDB exposes the underlying store (read access for bucket dumps).
+func (s *Shard) VerifDB() diskstore.DiskStore { return s.db }
+
+// VerifSwapDB replaces the underlying store, e.g. by a proxy that injects
+// faults, and returns the previous one.
+func (s *Shard) VerifSwapDB(db diskstore.DiskStore) diskstore.DiskStore {
+	old := s.db
+	s.db = db
+	return old
+}
+
+// VerifDumpBucket returns all key/value pairs of a bucket in a read transaction.
+func (s *Shard) VerifDumpBucket(name string) (keys [][]byte, vals [][]byte, err error) {
+	err = s.db.Read(func(bm diskstore.BucketManager) error {
+		b, err := bm.Get(name)
+		if err != nil {
+			return err
+		}
+		return b.ForEach(func(k, v []byte) error {
+			keys = append(keys, append([]byte{}, k...))
+			vals = append(vals, append([]byte{}, v...))
+			return nil
+		})
+	})
+	return
+}
